@@ -103,6 +103,99 @@ func grpStop(c *Ctx, spec string) {
 	c.Emit(op, obs)
 }
 
+// life.logic_stop: middleware.Logic.Stop stops exactly the hooks (pre and post) that implement stop.Stopper and
+// reports every error of every one of them. members: p = a plain hook, n<k> = a stoppable hook reporting k
+// errors, a = a stoppable hook that is already stopped; the first `npre` of them are pre-hooks.
+type plainHook struct{}
+
+func (plainHook) HandleAnnounce(ctx context.Context, _ *bittorrent.AnnounceRequest, _ *bittorrent.AnnounceResponse) (context.Context, error) {
+	return ctx, nil
+}
+func (plainHook) HandleScrape(ctx context.Context, _ *bittorrent.ScrapeRequest, _ *bittorrent.ScrapeResponse) (context.Context, error) {
+	return ctx, nil
+}
+
+type stoppableHook struct {
+	plainHook
+	idx   int
+	spec  string
+	calls *int32
+}
+
+func (h *stoppableHook) Stop() stop.Result {
+	atomic.AddInt32(h.calls, 1)
+	if h.spec == "a" {
+		return stop.AlreadyStopped
+	}
+	ch := make(stop.Channel)
+	go func() {
+		time.Sleep(time.Duration((h.idx*37)%5) * 100 * time.Microsecond)
+		k, _ := strconv.Atoi(h.spec[1:])
+		var errs []error
+		for j := 0; j < k; j++ {
+			errs = append(errs, fmt.Errorf("m%d.e%d", h.idx, j))
+		}
+		ch.Done(errs...)
+	}()
+	return ch.Result()
+}
+
+func logicStop(c *Ctx, spec string, npre int) {
+	op := fmt.Sprintf("life.logic_stop members=%s npre=%d", spec, npre)
+	obs := func() (o string) {
+		defer func() {
+			if p := recover(); p != nil {
+				o = "PANIC"
+			}
+		}()
+		ms := strings.Split(spec, ",")
+		if spec == "-" {
+			ms = nil
+		}
+		calls := make([]int32, len(ms))
+		var pre, post []middleware.Hook
+		for i, m := range ms {
+			var h middleware.Hook = plainHook{}
+			if m != "p" {
+				h = &stoppableHook{idx: i, spec: m, calls: &calls[i]}
+			}
+			if i < npre {
+				pre = append(pre, h)
+			} else {
+				post = append(post, h)
+			}
+		}
+		ps, _ := newStoreLogic()
+		defer func() { <-ps.Stop() }()
+		lg := middleware.NewLogic(middleware.ResponseConfig{AnnounceInterval: time.Minute, MinAnnounceInterval: time.Minute}, ps, pre, post)
+		done := make(chan []error, 1)
+		go func() { done <- lg.Stop().Wait() }()
+		select {
+		case errs := <-done:
+			var l []string
+			for _, e := range errs {
+				l = append(l, e.Error())
+			}
+			for i, m := range ms {
+				want := int32(1)
+				if m == "p" {
+					want = 0
+				}
+				if atomic.LoadInt32(&calls[i]) != want {
+					return fmt.Sprintf("member %d stopped %d times", i, calls[i])
+				}
+			}
+			if len(l) == 0 {
+				return "errs=-"
+			}
+			return "errs=" + strings.Join(l, ",")
+		case <-time.After(5 * time.Second):
+			return "STOP-DID-NOT-COMPLETE"
+		}
+	}()
+	c.Emit(op, obs)
+}
+
 // ---- frontends --------------------------------------------------------------------------------
 
 // gateLogic: a TrackerLogic over a real store whose post-response hook blocks until released.
@@ -461,6 +554,12 @@ func lifeReload(c *Ctx, n int) {
 func replayC16(c *Ctx, op string, a map[string]string) {
 	d, _ := strconv.Atoi(a["delay"])
 	switch op {
+	case "life.binary":
+		lifeBinary(c, a["scenario"])
+		cleanupBinary()
+	case "life.logic_stop":
+		np, _ := strconv.Atoi(a["npre"])
+		logicStop(c, a["members"], np)
 	case "grp.stop":
 		grpStop(c, a["members"])
 	case "life.http":
@@ -501,6 +600,22 @@ func runC16(c *Ctx) {
 		}
 		grpStop(c, s)
 	}
+	for i := 0; i < 12+c.N/100; i++ {
+		n := r.Intn(6)
+		var ms []string
+		for j := 0; j < n; j++ {
+			ms = append(ms, []string{"p", "p", "n0", "n1", "n2", "n3", "a"}[r.Intn(7)])
+		}
+		spec := "-"
+		if n > 0 {
+			spec = strings.Join(ms, ",")
+		}
+		logicStop(c, spec, r.Intn(n+1))
+	}
+	for _, sc := range []string{"bad-hook", "bad-posthook", "bad-store", "bad-option", "bad-option-nan", "bad-lists", "good", "good-hooks"} {
+		lifeBinary(c, sc)
+	}
+	cleanupBinary()
 	k := c.N / 40
 	if k < 3 {
 		k = 3
